@@ -102,3 +102,13 @@ Theorem C15_kruskal_invariant_under_negation : forall (psi : Z -> Z) (xs : list 
   kruskal_H (CheckC15.kruskal_stat (map psi xs) lab groups) = kruskal_H (CheckC15.kruskal_stat xs lab groups).
 Proof. exact kruskal_neg. Qed.
 Print Assumptions C15_kruskal_invariant_under_negation.
+
+(* colsample < 1: whatever the shuffled feature list, the number of features per sample and the
+   number of samples, the samples (k - 1 slices, the last one takes all the rest) are a partition
+   of the list: concatenated they give back the list, so every feature is measured in exactly one
+   sample (the list has no duplicates) *)
+Theorem C15_colsample_samples_partition :
+  forall (A : Type) (chunks k : nat) (l : list A),
+  List.concat (col_samples chunks k l) = l /\ List.length (col_samples chunks k l) = S (k - 1).
+Proof. exact (fun A c k l => conj (col_samples_partition c k l) (col_samples_count c k l)). Qed.
+Print Assumptions C15_colsample_samples_partition.
